@@ -1316,13 +1316,13 @@ def fam_lstm(seed):
     16-bit table activations, which the executable NPU model does not cover: no output comparison is claimed (klass 'cpu-mix')."""
     r = rng_for("lstm", seed)
     g = G(r, "int8")
-    n_batch, n_time = int(r.choice([1, 1, 2, 3])), int(r.choice([1, 2, 3, 4]))
+    n_batch, n_time = int(r.choice([1, 2, 2, 3])), int(r.choice([1, 2, 3, 4]))
     n_input, n_cell = int(r.choice([4, 8, 12, 16])), int(r.choice([4, 8, 20, 16]))
     time_major = bool(r.integers(0, 3) == 0)
     in_shape = [n_time, n_batch, n_input] if time_major else [n_batch, n_time, n_input]
     out_shape = [n_time, n_batch, n_cell] if time_major else [n_batch, n_time, n_cell]
     x = g.input(in_shape, scale=0.05, zp=0)
-    if r.integers(0, 3) == 0:
+    if r.integers(0, 3):
         x = g.unary("relu", x)
     nm = g.name("lstm")
 
